@@ -276,14 +276,14 @@ func hammer(col *collector, r *rand.Rand, s *jschema.Schema, spec c11.SchemaSpec
 		}
 		// the slice handed out by the previous Example() must still read the same
 		if prev != nil {
-			if now := fmt.Sprintf("%q ok", prev); now != prevWant {
+			if now := string(prev); now != prevWant {
 				col.diff(vh.Diff{Component: "C12-result", Input: fmt.Sprintf("%s; spec %s = %q; byte slice returned by an earlier Example() re-read after a later call", where, spec.ID, spec.Text),
-					Impl: now, Model: prevWant})
+					Impl: fmt.Sprintf("%q", now), Model: fmt.Sprintf("unchanged since the call: %q", prevWant)})
 			}
 			prev = nil
 		}
 		if code == opExample && b != nil {
-			prev, prevWant = b, w.ops[k]
+			prev, prevWant = b, string(b) // deep copy at the time of the call
 		}
 	}
 }
@@ -314,7 +314,7 @@ func describeSetup(spec c11.SchemaSpec) string {
 }
 
 // pickSpecs chooses the shared root and the other roots of a round.
-func pickSpecs(r *rand.Rand, known bool) (int, []int) {
+func pickSpecs(r *rand.Rand, known bool, wants map[int]want) (int, []int) {
 	roots := c11.Roots()
 	var pool []int
 	for _, ri := range roots {
@@ -327,6 +327,9 @@ func pickSpecs(r *rand.Rand, known bool) (int, []int) {
 		pool = roots
 	}
 	s := pool[r.Intn(len(pool))]
+	if wants[s].ops["Check()"] != "ok" { // prefer roots that compile: draw once more
+		s = pool[r.Intn(len(pool))]
+	}
 	var others []int
 	for i, n := 0, 1+r.Intn(3); i < n; i++ {
 		o := pool[r.Intn(len(pool))]
@@ -367,7 +370,7 @@ func runRound(col *collector, round int, known bool, wants map[int]want, rxWants
 	}
 	r := vh.NewRand(salt + int64(round)*1000)
 	G := []int{2, 4, 8, 16, 32}[round%5]
-	sIdx, others := pickSpecs(r, known)
+	sIdx, others := pickSpecs(r, known, wants)
 	spec := c11.Schemas[sIdx]
 	where := fmt.Sprintf("round %d (vh.NewRand(%d)), %d goroutines on shared root", round, salt+int64(round)*1000, G)
 
@@ -553,9 +556,9 @@ func child(stream string) {
 	for i := range c11.Regexes {
 		rxWants[i] = regexOracle(i)
 	}
-	rounds := vh.Pick(60, 1500)
+	rounds := vh.Pick(300, 6000)
 	if known {
-		rounds = vh.Pick(20, 200)
+		rounds = vh.Pick(40, 400)
 	}
 	for round := 0; round < rounds; round++ {
 		done := make(chan struct{})
@@ -621,6 +624,9 @@ func Run(args []string) {
 	runStream("main", "")
 	if withKnown {
 		runStream("known", "K-C12-allof")
+	}
+	for _, d := range rep.Diffs {
+		_ = d
 	}
 	rep.Extra["known_stream"] = fmt.Sprint(withKnown)
 	rep.Finish()
